@@ -24,7 +24,9 @@ Record sobs := mkSO {
   ob_pool : Z;
   ob_anom : bool;                  (* some id is held by two stores *)
   ob_applied : list bool;          (* per proposal index: its configuration update has been applied *)
-  ob_reload : bool                 (* this observation was taken right after a relaunch from the exported state *)
+  ob_reload : bool;                (* this observation was taken right after a relaunch from the exported state *)
+  ob_flows : list (Z * Z)          (* per proposal index: OLT paid in so far, OLT refunded so far (implementation: measured
+                                      from the OLT balance deltas of payers / beneficiaries; model: from its events) *)
 }.
 
 Global Instance pobs_eq_dec : EqDecision pobs. Proof. solve_decision. Defined.
@@ -58,21 +60,29 @@ Definition proj (np na : nat) (s : state) : sobs :=
        (map (fun i => match g_props s !! i with Some p => Some (proj_prop na p) | None => None end) (idx np))
        (map (fun a => bal s a) (idx na)) (g_pool s)
        (g_anom s || existsb (fun i => match g_props s !! i with Some p => negb (p_extra p =? 0) | None => false end) (idx np))
-       (map (fun i => bool_decide (i ∈ g_applied s)) (idx np)) false.
-Definition as_reload (o : sobs) : sobs := mkSO (ob_h o) (ob_props o) (ob_bal o) (ob_pool o) (ob_anom o) (ob_applied o) true.
+       (map (fun i => bool_decide (i ∈ g_applied s)) (idx np)) false [].
+Definition as_reload (o : sobs) : sobs := mkSO (ob_h o) (ob_props o) (ob_bal o) (ob_pool o) (ob_anom o) (ob_applied o) true (ob_flows o).
+Definition ev_in (i : N) (e : event) : Z := match e with EvContrib j _ a => if N.eqb i j then a else 0 | _ => 0 end.
+Definition ev_ref (i : N) (e : event) : Z := match e with EvRefund j _ _ a => if N.eqb i j then a else 0 | _ => 0 end.
+Definition flows_of (np : nat) (evs : list event) : list (Z * Z) :=
+  map (fun i => (fold_right (fun e acc => ev_in i e + acc) 0 evs, fold_right (fun e acc => ev_ref i e + acc) 0 evs)) (idx np).
+Definition with_flows (o : sobs) (f : list (Z * Z)) : sobs :=
+  mkSO (ob_h o) (ob_props o) (ob_bal o) (ob_pool o) (ob_anom o) (ob_applied o) (ob_reload o) f.
 
 (* ---- model run: per-op ok flags and the projection after every EndBlock ---- *)
-Fixpoint drive (np na : nat) (s : state) (ts : list hop) : list bool * list sobs :=
+Fixpoint drive_ev (np na : nat) (s : state) (evs : list event) (ts : list hop) : list bool * list sobs :=
   match ts with
   | [] => ([], [])
   | t :: r =>
-      let '(s1, ok, _) := hstep s t in
-      let '(oks, obs) := drive np na s1 r in
+      let '(s1, ok, ev) := hstep s t in
+      let evs1 := evs ++ ev in
+      let '(oks, obs) := drive_ev np na s1 evs1 r in
       (ok :: oks, match t with
-                  | HOp x => match t_op x with OEnd => proj np na s1 :: obs | _ => obs end
-                  | HReload _ _ _ => as_reload (proj np na s1) :: obs
+                  | HOp x => match t_op x with OEnd => with_flows (proj np na s1) (flows_of np evs1) :: obs | _ => obs end
+                  | HReload _ _ _ => with_flows (as_reload (proj np na s1)) (flows_of np evs1) :: obs
                   end)
   end.
+Definition drive (np na : nat) (s : state) (ts : list hop) : list bool * list sobs := drive_ev np na s [] ts.
 
 (* the transactions of a history with the implementation's ok flags (relaunch markers dropped) *)
 Fixpoint txs_of (hs : list hop) (oks : list bool) : list txop * list bool :=
@@ -110,7 +120,8 @@ Definition obs_diff_kind (a b : sobs) : Z :=
     match first_diff 0 (ob_bal a) (ob_bal b) with Some i => 1000 + i | None => 2 end
   else if negb (ob_pool a =? ob_pool b) then 3
   else if negb (Bool.eqb (ob_anom a) (ob_anom b)) then 4
-  else if negb (bool_decide (ob_applied a = ob_applied b)) then 6 else 5.
+  else if negb (bool_decide (ob_applied a = ob_applied b)) then 6
+  else if negb (bool_decide (ob_flows a = ob_flows b)) then 7 else 5.
 
 (* (case, kind, position, detail): kind 1 = ok flag of op #position differs; kind 2 = observation #position differs *)
 Definition case_mismatch (ci : Z) (c : gcase) : list Z :=
@@ -296,6 +307,16 @@ Fixpoint obs_viol (bi : Z) (prev : sobs) (obs : list sobs) (infos : list binfo) 
       let drift := match drifts with n :: _ => n | [] => [] end in
       props_viol bi (ob_h b) 0 info (match negs with n :: _ => n | [] => [] end) drift (newly_finalized (ob_props prev) (ob_props b)) (ob_props prev) (ob_props b) ++
       (if wealth b <=? wealth prev then [] else [bi; -1; 9; 0]) ++     (* 9: value appeared *)
+      (* 16: the OLT recorded for a proposal exceeds the OLT actually paid in minus the OLT refunded (measured from the
+             OLT balance deltas of the payers / beneficiaries); 17: more OLT refunded than paid in *)
+      flat_map (fun x : Z * (option pobs * (Z * Z)) =>
+                  match x with
+                  | (i, (Some pb, (fin, fref))) =>
+                      (if ob_total pb <=? fin - fref then [] else [bi; i; 16; 0]) ++
+                      (if fref <=? fin then [] else [bi; i; 17; 0])
+                  | _ => []
+                  end)
+               (zip (map Z.of_N (idx (length (ob_props b)))) (zip (ob_props b) (ob_flows b))) ++
       (* 12: a configuration update came into force whose proposal is not recorded as passed (outcome completedYes) *)
       flat_map (fun x : Z * (bool * (bool * option pobs)) =>
                   match x with
@@ -310,7 +331,7 @@ Fixpoint obs_viol (bi : Z) (prev : sobs) (obs : list sobs) (infos : list binfo) 
   end.
 
 Definition case_monitor (ci : Z) (c : gcase) : list Z :=
-  let s0 := mkSO 0 (map (fun _ => None) (idx (c_np c))) (c_init c) (c_pool c) false (map (fun _ => false) (idx (c_np c))) false in
+  let s0 := mkSO 0 (map (fun _ => None) (idx (c_np c))) (c_init c) (c_pool c) false (map (fun _ => false) (idx (c_np c))) false [] in
   let '(txs, oks) := txs_of (c_ops c) (c_ok c) in
   let v := obs_viol 0 s0 (c_obs c) (block_infos txs oks bi_empty)
                     (neg_cum txs oks []) (drift_cum txs oks [] []) in
